@@ -3,7 +3,9 @@ import os
 import vcheck as V
 from props import common
 
-THEOREMS = ["C16_evm_cost_checked", "C16_admission", "C16_native_cost", "C16_fee_sum", "C16_evm_cost", "C16_block_fee_sum", "C16_proposer_credit"]
+THEOREMS = ["C16_evm_cost_checked", "C16_admission", "C16_native_cost", "C16_fee_sum", "C16_evm_cost", "C16_block_fee_sum", "C16_proposer_credit",
+            "C16_run_price_in_force", "C16_run_price_hand_over", "C16_run_admission_exact", "C16_run_block_fee_sum_mod", "C16_run_sender_charge", "C16_run_failed_no_charge",
+            "C16_run_block_credit", "C16_run_total_fees", "C16_run_account_ledger", "C16_run_evm_charge_checked", "C16_total_fees_needs_bracketed"]
 PROPS_V = "theories/Props/C16.v"
 
 
